@@ -290,11 +290,13 @@ def diag_case(meta, extra=None):
 # ---------------------------------------------------------------------------------------------
 
 def laws(ctx):
-    cfg = "MCFixes_laws.cfg" if ctx.quick else "MCFixes_laws_big.cfg"
+    cfg = "MCFixes_laws.cfg" if (ctx.quick or os.environ.get("C16_CAP")) else "MCFixes_laws_big.cfg"
     r = vlib.run_tlc(ctx, "MCFixes", cfg, workers=min(vlib.NCPU, 10), timeout=3000, coverage=not ctx.quick)
     vlib.tlc_require_ok(r, "Fixes laws (%s)" % cfg)
     if r.distinct < 1000:
         raise Inconclusive("MCFixes explored only %d states" % r.distinct)
+    if not ctx.quick and r.coverage_zero:
+        raise Inconclusive("MCFixes: never exercised (vacuity): %s" % r.coverage_zero)
     n = vlib.run_tlc(ctx, "MCFixes", "MCFixes_naive.cfg", workers=2, timeout=900)
     if n.violated != "OrderIndependent":
         raise Inconclusive("negative self-test of the law: the naive shift rule was not refuted by TLC (%s)" % n.violated)
@@ -554,7 +556,8 @@ def run(ctx):
     jobs = make_jobs(ctx, helper, base, var_units, repo_sel)
     stats = new_stats()
     art, dver, fver, _ = analyse(ctx, helper, jobs, "main", stats)
-    if stats["diagnostics"] < 200 or stats["fixes"] < 100:
+    capped = bool(os.environ.get("C16_CAP")) and not ctx.quick
+    if not capped and (stats["diagnostics"] < 200 or stats["fixes"] < 100):
         raise Inconclusive("recorded only %d diagnostics / %d fixes; job errors: %s" % (stats["diagnostics"], stats["fixes"], stats["job_errors"][:3]))
     if stats["job_errors"]:
         raise Inconclusive("runner failed on %d jobs: %s" % (len(stats["job_errors"]), stats["job_errors"][:3]))
